@@ -5,6 +5,7 @@ package main
 // model-free helpers (pattern instantiation, conservative matcher).
 
 import (
+	"bufio"
 	"fmt"
 	"math/rand"
 	"net/http"
@@ -32,6 +33,14 @@ type rReq struct {
 	// Override: the request arrives as POST carrying X-HTTP-Method-Override: <Method>; the application installs
 	// middleware.MethodOverride() with e.Pre, so the method the router must use is Method
 	Override bool `json:"override,omitempty"`
+	// Parsed: the request is what net/http's server would hand over for the request line `Method Path HTTP/1.1`
+	// (http.ReadRequest: URL.Path percent-decoded, URL.RawPath kept when it cannot be recovered from Path), provided
+	// that line is well-formed and the router is then shown exactly Path; otherwise the URL fields are set by hand
+	Parsed bool `json:"parsed,omitempty"`
+	// Keep (for the target of an internal forward): the handler calls Router.Find on its context as it is — the
+	// idiom `c.Echo().Router().Find(m, p, c); return c.Handler()(c)` — instead of first putting handler, path and
+	// names back to what Reset gives
+	Keep bool `json:"keep,omitempty"`
 }
 
 // rObs is what the real code did with one request.
@@ -52,6 +61,7 @@ type rObs struct {
 	FwdNames  []string
 	FwdValues []string
 	FwdDone   bool
+	FwdObs    *rObs // what the handler found by the forward saw when the forwarding handler ran it (c.Handler()(c))
 }
 
 // keep: the fields that live as long as the Echo instance
@@ -117,8 +127,19 @@ func rAddRoutes(reg rRegistrar, e *echo.Echo, routes []rRoute, from int, cur *rO
 			cur.Names = append([]string{}, c.ParamNames()...)
 			cur.Values = append([]string{}, c.ParamValues()...)
 			if cur.fwd != nil {
-				// internal forward: the handler routes ANOTHER path on its own context and looks at the result
-				c.Echo().Router().Find(cur.fwd.Method, cur.fwd.Path, c)
+				// internal forward: the handler routes ANOTHER path on its own context and runs what was found.
+				// Router.Find leaves the context alone when nothing at all matches ("handler will be whatever context
+				// is reset to"), so the careful application first puts handler, path and names back to what Reset
+				// gives (fwd.Keep: it does not; then nothing is claimed about a forward that matches nothing at all);
+				// the VALUES stay as the first lookup left them (there is no public way to blank them short of Reset)
+				fwd := cur.fwd
+				cur.fwd = nil
+				if !fwd.Keep {
+					c.SetHandler(echo.NotFoundHandler)
+					c.SetPath("")
+					c.SetParamNames()
+				}
+				c.Echo().Router().Find(fwd.Method, fwd.Path, c)
 				cur.FwdDone = true
 				cur.FwdPath = c.Path()
 				cur.FwdNames = append([]string{}, c.ParamNames()...)
@@ -126,6 +147,35 @@ func rAddRoutes(reg rRegistrar, e *echo.Echo, routes []rRoute, from int, cur *rO
 					defer func() { recover() }()
 					cur.FwdValues = append([]string{}, c.ParamValues()...)
 				}()
+				// run the handler the forward found (`return c.Handler()(c)` in applications); a registered handler
+				// records itself into cur, so the observation of this (outer) handler is set aside meanwhile
+				outer := *cur
+				*cur = rObs{shared: outer.shared}
+				func() {
+					defer func() {
+						if r := recover(); r != nil {
+							cur.Kind, cur.Panic = 'P', fmt.Sprint(r)
+						}
+					}()
+					err := c.Handler()(c)
+					if cur.Kind == 'D' {
+						return
+					}
+					switch {
+					case err == echo.ErrNotFound:
+						cur.Kind = 'N'
+					case err == echo.ErrMethodNotAllowed || err == nil && fwd.Method == http.MethodOptions:
+						cur.Kind = 'M'
+						cur.Allow = splitAllow(c.Response().Header().Get(echo.HeaderAllow))
+					default:
+						cur.Kind = '?'
+					}
+				}()
+				inner := *cur
+				inner.shared = nil
+				outer.shared = cur.shared
+				*cur = outer
+				cur.FwdObs = &inner
 			}
 			c.SetParamValues(cur.shared...) // the application passes a slice of its own (longer than any route needs)
 			rScribble(c)
@@ -277,7 +327,56 @@ type nopWriter struct{}
 
 func (nopWriter) Write(b []byte) (int, error) { return len(b), nil }
 
+// rParsedRequest: the request as net/http reads it off the wire; nil when the request line would not be well-formed
+// or when net/url's view of the target is not literally q.Path (then the caller builds the URL by hand)
+func rParsedRequest(q rReq) *http.Request {
+	if q.Path == "" || q.Path[0] != '/' || q.Method == "" {
+		return nil
+	}
+	for i := 0; i < len(q.Path); i++ {
+		if c := q.Path[i]; c <= ' ' || c == 0x7f || c == '?' || c == '#' {
+			return nil
+		}
+	}
+	for i := 0; i < len(q.Method); i++ {
+		c := q.Method[i]
+		if !(c >= 'A' && c <= 'Z' || c >= 'a' && c <= 'z' || c >= '0' && c <= '9' || strings.IndexByte("!#$%&'*+-.^_`|~", c) >= 0) {
+			return nil
+		}
+	}
+	host := q.Host
+	if host == "" {
+		host = "example.com"
+	}
+	for i := 0; i < len(host); i++ {
+		if c := host[i]; c <= ' ' || c >= 0x7f {
+			return nil
+		}
+	}
+	req, err := http.ReadRequest(bufio.NewReader(strings.NewReader(q.Method + " " + q.Path + " HTTP/1.1\r\nHost: " + host + "\r\n\r\n")))
+	if err != nil || req.Method != q.Method || req.Host != host {
+		return nil
+	}
+	seen := req.URL.RawPath
+	if seen == "" {
+		seen = req.URL.Path
+	}
+	if seen != q.Path {
+		return nil
+	}
+	if q.Host == "" {
+		req.Host = "example.com"
+	}
+	req.RemoteAddr = "192.0.2.1:1234"
+	return req
+}
+
 func rNewRequest(q rReq) *http.Request {
+	if q.Parsed && !q.Override {
+		if req := rParsedRequest(q); req != nil {
+			return req
+		}
+	}
 	req := httptest.NewRequest(http.MethodGet, "/", nil)
 	req.Method = q.Method
 	req.URL.Path = q.Path
@@ -503,13 +602,60 @@ func rMatchLiberal(toks []rTok, path string) bool {
 
 // ---------- generators ----------
 
-var rLits = []string{"a", "b", "ab", "abc", "users", "x.y", "a-b", "new", "v1", "t{x}", "p|q", "abd", "ne", "next", "caf\xc3\xa9", "caf\xc3\xa8"}
+var rLits = []string{"a", "b", "ab", "abc", "users", "x.y", "a-b", "new", "v1", "t{x}", "p|q", "abd", "ne", "next", "caf\xc3\xa9", "caf\xc3\xa8", "caf\xc3\xaa"}
 var rParams = []string{":id", ":name", ":x", ":y"}
 
 // every method with its own slot in routeMethods (router.go: the eleven standard ones), custom methods of the
 // anyOther map, and the RouteNotFound pseudo method (must stay last)
 var rMethods = []string{"GET", "POST", "PUT", "DELETE", "OPTIONS", "X-CUSTOM", "PROPFIND", "purge", "Baseline-Control",
-	"PATCH", "HEAD", "CONNECT", "TRACE", "REPORT", "BATCH+JSON", "$SYNC~", "N!", routeNotFound}
+	"PATCH", "HEAD", "CONNECT", "TRACE", "REPORT", "BATCH+JSON", "$SYNC~", "N!",
+	// custom methods that look like one with a slot of its own: same length and first byte, prefix, extension, case twin
+	"PURGE", "PING", "PRI", "REBIND", "CHECKIN", "get", "Post", "GETS", "DELET", routeNotFound}
+
+var rBuiltinMethods = []string{"CONNECT", "DELETE", "GET", "HEAD", "OPTIONS", "PATCH", "POST", "PROPFIND", "PUT", "TRACE", "REPORT"}
+
+// rNearMethod: a method name that is not m but close to it: same length and first byte (what a dispatch on a digest
+// of the name confuses), same tail, a prefix, an extension, another letter case
+func rNearMethod(r *rand.Rand, m string) string {
+	if m == "" || m == routeNotFound {
+		m = rBuiltinMethods[r.Intn(len(rBuiltinMethods))]
+	}
+	b := []byte(m)
+	var out string
+	switch r.Intn(9) {
+	case 0: // same length, same first byte, other tail
+		for i := 1; i < len(b); i++ {
+			b[i] = "URGEINXS"[(int(b[i])+i)%8]
+		}
+		out = string(b)
+	case 1: // same length, same first and last byte
+		if len(b) > 2 {
+			b[1+r.Intn(len(b)-2)] = 'Z'
+		}
+		out = string(b)
+	case 2:
+		out = strings.ToLower(m)
+	case 3:
+		out = m[:1] + strings.ToLower(m[1:])
+	case 4:
+		out = m + string("SX-1"[r.Intn(4)])
+	case 5:
+		out = m[:len(m)-1]
+	case 6: // other first byte, same tail
+		out = string("XQgp"[r.Intn(4)]) + m[1:]
+	case 7:
+		out = []string{"PURGE", "PING", "PUSH", "PULL", "PRI", "REBIND", "CHECKIN", "CHECKOUT", "HEAP", "TRACK", "GEX", "OPTIONX", "PROPFINE", "DELETX", "UNLOCK", "MKCOL"}[r.Intn(16)]
+	default: // same bytes, other order
+		for i, j := 0, len(b)-1; i < j; i, j = i+1, j-1 {
+			b[i], b[j] = b[j], b[i]
+		}
+		out = string(b)
+	}
+	if out == "" || out == m || out == routeNotFound {
+		out = m + "2"
+	}
+	return out
+}
 
 type rGenOpts struct {
 	escaped  bool // allow `\:` segments
@@ -615,13 +761,17 @@ func rGenTable(r *rand.Rand, o rGenOpts) []rRoute {
 			}
 		}
 		var m string
-		switch k := r.Intn(10); {
-		case k < 5:
+		switch k := r.Intn(20); {
+		case k < 10:
 			m = "GET"
-		case k < 7:
+		case k < 14:
 			m = "POST"
-		default:
+		case k < 15:
+			m = routeNotFound
+		case k < 19 || len(out) == 0:
 			m = rMethods[r.Intn(len(rMethods))]
+		default: // a look-alike of a method the table already uses
+			m = rNearMethod(r, out[r.Intn(len(out))].Method)
 		}
 		toks, _, _ := rNorm(p)
 		key := m + " " + rTokKey(toks)
@@ -648,6 +798,28 @@ func rGenTable(r *rand.Rand, o rGenOpts) []rRoute {
 	}
 	if len(out) == 0 {
 		out = append(out, rRoute{Method: "GET", Path: "/"})
+	}
+	if len(out) < n+2 && r.Intn(8) == 0 {
+		// siblings that part inside a multi-byte character (same lead byte, other continuation byte): the twin of a
+		// route that has such a literal, else two new ones below an existing route
+		base := out[r.Intn(len(out))]
+		twin := func(p, from, to string) {
+			rt := rRoute{Method: base.Method, Path: strings.Replace(p, from, to, 1)}
+			toks, _, _ := rNorm(rt.Path)
+			if key := rt.Method + " " + rTokKey(toks); !seen[key] {
+				seen[key] = true
+				out = append(out, rt)
+			}
+		}
+		if strings.Contains(base.Path, "\xc3\xa9") {
+			twin(base.Path, "\xc3\xa9", "\xc3\xa8")
+			if r.Intn(2) == 0 {
+				twin(base.Path, "\xc3\xa9", "\xc3\xaa")
+			}
+		} else if p := strings.TrimSuffix(strings.TrimSuffix(base.Path, "/*"), "*"); !strings.HasSuffix(p, "/") {
+			twin(p+"/caf\xc3\xa9", "~", "~")
+			twin(p+"/caf\xc3\xa9", "\xc3\xa9", "\xc3\xa8")
+		}
 	}
 	return out
 }
@@ -774,8 +946,10 @@ func rGenMethod(r *rand.Rand, routes []rRoute) string {
 		return "GET"
 	case k < 8:
 		return "OPTIONS"
-	default:
+	case k < 9:
 		return rMethods[r.Intn(len(rMethods)-1)]
+	default: // a look-alike of a method of the table
+		return rNearMethod(r, routes[r.Intn(len(routes))].Method)
 	}
 }
 
